@@ -149,7 +149,7 @@ def transplant(master, mit, regs, kept, ext, eit):
     return "".join(out), ratio, dropped
 
 
-def splice(prelude_src, master_src, ext_src, deferred):
+def splice(prelude_src, master_src, ext_src, deferred, quarantined=()):
     master = Parsed(master_src, "annotated.rs")
     ext = Parsed(ext_src, "extracted.rs")
     efns, etypes = {}, {}
@@ -175,7 +175,14 @@ def splice(prelude_src, master_src, ext_src, deferred):
             K = [master.toks[k].text for k in kept]
             eregs = rtok.exec_regions(ext.toks, eit)
             A = [ext.toks[k].text for k in rtok.kept_tokens(ext.toks, eit, eregs)]
-            if K == A:
+            if name in quarantined:
+                # keep the contract (header clauses), drop every ghost region of the body, do not verify the body
+                hregs = [r for r in regs if r[1] <= it.body_lo + 1]
+                txt, ratio, dropped = transplant(master, it, hregs, kept, ext, eit)
+                txt = "#[verifier::external_body] // @quarantined: body not read by the verifier\n" + txt
+                edits.append((master.toks[it.lo].start, master.toks[it.hi - 1].end, txt))
+                report["functions"][name] = {"status": "quarantined", "exec_tokens": len(A)}
+            elif K == A:
                 report["functions"][name] = {"status": "exact", "exec_tokens": len(K)}
             else:
                 txt, ratio, dropped = transplant(master, it, regs, kept, ext, eit)
